@@ -38,6 +38,8 @@ func init() {
 	domains["loaddeep"] = domain{runLoadDeep,
 		"the include trees of domain load (depth <= 3 quick / 4 thorough, every include option), three variable names, " +
 			"each loaded 25 (quick) / 100 (thorough) times in one process; all dumps equal and equal to the model; distinct as in load"}
+	domains["loadresolve"] = domain{runLoadResolve,
+		"non-trivial = distinct generated (tree, requests) with a request through >= 2 namespace levels that resolves"}
 	domains["load"] = domain{runLoad,
 		"include trees of 2..6 files (depth <= 3 quick / 4 thorough; diamonds, one file under several namespaces, " +
 			"cycles, missing/optional files, version/dotenv errors) with every include option and task attribute drawn " +
@@ -101,6 +103,7 @@ type ldCase struct {
 	Files []ldFile `json:"files"`
 	Loads int      `json:"loads"`
 	Note  string   `json:"note,omitempty"`
+	Reqs  []string `json:"reqs,omitempty"` // op "resolve": names asked of the merged table (C15)
 }
 
 const nAttrs = 21
@@ -471,6 +474,100 @@ func classifyErr(err error) string {
 	return fmt.Sprintf("err %s %d", class, code)
 }
 
+// resolveOnce loads the tree and asks the executor to resolve each requested name (C15 over a
+// merged table): `found <name> <nw> <w>*` | `conflict <n> <name>*` (sorted) | `notfound`, joined by " | ".
+func resolveOnce(root string, reqs []string) (res string) {
+	defer func() {
+		if r := recover(); r != nil {
+			res = "panic"
+		}
+	}()
+	var out, errb bytes.Buffer
+	e := task.NewExecutor(task.WithDir(root), task.WithStdout(&out), task.WithStderr(&errb), task.WithVersionCheck(true))
+	if err := e.Setup(); err != nil {
+		return classifyErr(err)
+	}
+	parts := []string{"ok"}
+	for _, rq := range reqs {
+		call := &task.Call{Task: rq}
+		t, err := e.GetTask(call)
+		var nf *errors.TaskNotFoundError
+		var cf *errors.TaskNameConflictError
+		switch {
+		case err == nil:
+			ws := []string{}
+			if call.Vars != nil {
+				if m, ok := call.Vars.Get("MATCH"); ok {
+					if l, ok := m.Value.([]string); ok {
+						ws = l
+					}
+				}
+			}
+			parts = append(parts, strings.TrimSpace(fmt.Sprintf("found %s %d %s", hx(t.Task), len(ws), hxs(ws))))
+		case errors.As(err, &nf):
+			parts = append(parts, "notfound")
+		case errors.As(err, &cf):
+			ns := append([]string{}, cf.TaskNames...)
+			sort.Strings(ns)
+			parts = append(parts, strings.TrimSpace(fmt.Sprintf("conflict %d %s", len(ns), hxs(ns))))
+		default:
+			parts = append(parts, "error "+hx(err.Error()))
+		}
+	}
+	return strings.Join(parts, " | ")
+}
+
+// ldCandidates: the names a user could try on the merged table of the abstract tree: every
+// task name and task alias under every namespace / namespace-alias path, plus the bare
+// namespace paths (default-task alias).  Bounded depth (generated trees may be cyclic).
+func ldCandidates(d *ldCase) []string {
+	byID := map[int]*ldFile{}
+	for i := range d.Files {
+		byID[d.Files[i].ID] = &d.Files[i]
+	}
+	seen := map[string]bool{}
+	var out []string
+	add := func(s string) {
+		if s != "" && !seen[s] {
+			seen[s] = true
+			out = append(out, s)
+		}
+	}
+	var walk func(id int, prefixes []string, depth int)
+	walk = func(id int, prefixes []string, depth int) {
+		f := byID[id]
+		if f == nil || depth > 4 {
+			return
+		}
+		for _, t := range f.Tasks {
+			for _, n := range append([]string{t.Name}, t.Aliases...) {
+				for _, p := range prefixes {
+					add(p + n)
+				}
+			}
+		}
+		for _, inc := range f.Includes {
+			next := prefixes
+			if !inc.Flatten {
+				next = nil
+				for _, p := range prefixes {
+					for _, x := range append([]string{inc.NS}, inc.Aliases...) {
+						add(p + x)
+						next = append(next, p+x+":")
+					}
+				}
+			}
+			if len(next) > 24 {
+				next = next[:24]
+			}
+			walk(inc.File, next, depth+1)
+		}
+	}
+	walk(d.Root, []string{""}, 0)
+	sort.Strings(out)
+	return out
+}
+
 // loadOnce loads the tree at root once through the public API and dumps it.
 func loadOnce(root string, ids map[string]int, probe int, keys []int) (res ldLoaded) {
 	defer func() {
@@ -595,6 +692,8 @@ func loadCaseLine(d *ldCase) string {
 	var b strings.Builder
 	if d.Op == "refs" {
 		fmt.Fprintf(&b, "load.refs %d %d", d.Root, len(d.Files))
+	} else if d.Op == "resolve" {
+		fmt.Fprintf(&b, "load.resolve %d %d", d.Root, len(d.Files))
 	} else {
 		fmt.Fprintf(&b, "load.tree %d %d %d", d.Probe, d.Root, len(d.Files))
 	}
@@ -616,6 +715,12 @@ func loadCaseLine(d *ldCase) string {
 				}
 			}
 			fmt.Fprintf(&b, " %s %s %s %s %s %s", namesDump(t.Deps), namesDump(t.Aliases), b2s(t.Internal), natsTok(t.Dir), natsTok(t.Attrs), varsTok(t.Vars))
+		}
+	}
+	if d.Op == "resolve" {
+		fmt.Fprintf(&b, " %d", len(d.Reqs))
+		for _, r := range d.Reqs {
+			fmt.Fprintf(&b, " %s", hx(r))
 		}
 	}
 	return b.String()
@@ -780,6 +885,9 @@ func evalLoad(d ldCase) (string, string) {
 		}
 	}
 	sort.Ints(keys)
+	if d.Op == "resolve" {
+		return cl, resolveOnce(root, d.Reqs)
+	}
 	loads := d.Loads
 	if loads < 1 {
 		loads = 1
@@ -1228,6 +1336,63 @@ func runLoadDeep(c *Ctx) {
 func runLoadRep(c *Ctx) {
 	runLoadWith(c, c.Pick(110, 800), c.Pick(40, 200),
 		ldGenCfg{maxDepth: 2, pRootParent: 70, pExtraParent: 30, pTwice: 35, keyPool: 2, pInject: 8})
+}
+
+// runLoadResolve (property C15): name resolution over merged tables — the include trees of
+// domain load, each asked for a sample of the names its namespaces, namespace aliases, task
+// aliases and default tasks make available (plus near misses).
+func runLoadResolve(c *Ctx) {
+	if c.Replay(func(raw []byte) (string, string) {
+		var d ldCase
+		mustJSON(raw, &d)
+		return evalLoad(d)
+	}) {
+		return
+	}
+	n := c.Pick(220, 2500)
+	cfg := ldGenCfg{maxDepth: c.Pick(3, 4), pRootParent: 10, pExtraParent: 15, pTwice: 15, keyPool: 2, pInject: 0}
+	for i := 0; i < n; i++ {
+		d := c.genTree(cfg)
+		d.Op = "resolve"
+		d.Loads = 1
+		d.Probe = 0
+		cands := ldCandidates(&d)
+		k := 10
+		for j := 0; j < k && len(cands) > 0; j++ {
+			r := cands[c.Rng.Intn(len(cands))]
+			switch c.Rng.Intn(8) {
+			case 0: // drop the first namespace segment
+				if ix := strings.Index(r, ":"); ix >= 0 {
+					r = r[ix+1:]
+				}
+			case 1: // drop a middle segment
+				ps := strings.Split(r, ":")
+				if len(ps) > 2 {
+					r = strings.Join(append(ps[:1:1], ps[2:]...), ":")
+				}
+			case 2:
+				r = r + "x"
+			}
+			d.Reqs = append(d.Reqs, r)
+		}
+		cl, il := evalLoad(d)
+		c.Emit(cl, il, d)
+		for _, part := range strings.Split(il, " | ") {
+			c.Hit("answer:" + strings.Fields(part + " -")[0])
+		}
+		nested := 0
+		for _, r := range d.Reqs {
+			if strings.Count(r, ":") >= 2 {
+				nested++
+			}
+		}
+		if nested > 0 {
+			c.Hit("nested-requests")
+		}
+		if strings.Contains(il, "found") && nested > 0 {
+			c.Distinct(cl)
+		}
+	}
 }
 
 func runLoadWith(c *Ctx, n, loads int, cfg ldGenCfg) {
